@@ -454,13 +454,26 @@ class HintSane(object, metaclass=_HintSaneMetaclass):
         self.typearg_to_hint = typearg_to_hint
 
         # Hash identifying this object, precomputed for efficiency.
-        self._hash = hash((
-            hint,
-            hint_recursable_to_depth,
-            is_check_expr_cacheable,
-            is_hint_parent_pep484585_subclass,
-            typearg_to_hint,
-        ))
+        #
+        # Note that unhashable hints (e.g., "Annotated[int, []]") are hashed by
+        # their object identifiers instead. The metaclass of this class already
+        # refuses to memoize such hints and marks them as uncacheable.
+        try:
+            self._hash = hash((
+                hint,
+                hint_recursable_to_depth,
+                is_check_expr_cacheable,
+                is_hint_parent_pep484585_subclass,
+                typearg_to_hint,
+            ))
+        except TypeError:
+            self._hash = hash((
+                id(hint),
+                hint_recursable_to_depth,
+                is_check_expr_cacheable,
+                is_hint_parent_pep484585_subclass,
+                typearg_to_hint,
+            ))
 
     # ..................{ DUNDERS                            }..................
     def __hash__(self) -> int:
